@@ -1,7 +1,7 @@
 (* Extraction of the executable Model and Spec definitions.  ExtrOcamlBasic only: bool, option, list, prod,
    unit, sumbool, sumor map to OCaml natives; N / positive / nat / string / ascii stay Coq datatypes. *)
 From Coq Require Extraction ExtrOcamlBasic.
-From QV Require Import Model.Base Generated.Tables Model.Quote Model.Unquote Model.Split Model.PortRange Model.Unit Model.Lex Model.Parser Model.Path Model.Names Model.Convert Model.Process Model.Links Model.Discover Spec.SdExtract Spec.Passthrough.
+From QV Require Import Model.Base Generated.Tables Model.Quote Model.Unquote Model.Split Model.PortRange Model.Unit Model.Lex Model.Parser Model.Path Model.Names Model.Convert Model.Process Model.ProcessD Model.Links Model.Discover Spec.SdExtract Spec.Passthrough.
 Extraction Language OCaml.
 Extraction "Extract/model.ml"
   s2l
@@ -10,7 +10,7 @@ Extraction "Extract/model.ml"
   split_word_all split_word_all_pinned split_strv_all split_strv_all_pinned
   is_port_range is_port_range_pinned trim trim_end
   cleaned absolute_from absolute_from_unit starts_with_systemd_specifier template_parts parent file_name file_stem extension
-  root_includes rootless_includes plan_links process_files convert_one unit_info is_url
+  root_includes rootless_includes plan_links process_files process_trees convert_one unit_info is_url
   parse_unit to_string write_calls unit_add unit_add_raw unit_set set_entry unit_prepend rename_section merge_from
   lookup_last lookup_last_value lookup_all lookup_all_values lookup_all_args lookup_all_strv lookup_all_key_val lookup_bool has_key to_bool
   fl_exec fl_args fl_strv sd_split
